@@ -23,15 +23,21 @@ def md5(t):
     return digest_for('MD5', t)
 
 
-def build_tree(fs, fmt1, fmt2, f1, f2, stale1=False, stale2=False):
-    """Manifest -> s1/Manifest<fmt1> (one file f) and s2/Manifest<fmt2> (one file g)"""
+def build_tree(fs, fmt1, fmt2, f1, f2, stale1=False, stale2=False, meta=False):
+    """Manifest -> s1/Manifest<fmt1> (one file f) and s2/Manifest<fmt2> (one file g);
+    meta: each directory also holds a metadata.xml, which makes the ebuild profiles expect
+    a Manifest there"""
     n1, n2 = 's1/Manifest' + fmt1, 's2/Manifest' + fmt2
     fs.add_file('s1/f', size=f1[0], digest=f1[1])
     fs.add_file('s2/g', size=f2[0], digest=f2[1])
-    fs.add_manifest(n1, [mk('DATA', 'f', 2 if not stale1 else 3, MD5=md5('F'))],
-                    size=11, digest='P')
-    fs.add_manifest(n2, [mk('DATA', 'g', 2 if not stale2 else 3, MD5=md5('G'))],
-                    size=12, digest='Q')
+    e1 = [mk('DATA', 'f', 2 if not stale1 else 3, MD5=md5('F'))]
+    e2 = [mk('DATA', 'g', 2 if not stale2 else 3, MD5=md5('G'))]
+    if meta:
+        for d, ents in (('s1', e1), ('s2', e2)):
+            fs.add_file(d + '/metadata.xml', size=1, digest='m')
+            ents.append(mk('DATA', 'metadata.xml', 1, MD5=md5('m')))
+    fs.add_manifest(n1, e1, size=11, digest='P')
+    fs.add_manifest(n2, e2, size=12, digest='Q')
     fs.add_manifest('Manifest', [mk('MANIFEST', n1, 11, MD5=md5('P')),
                                  mk('MANIFEST', n2, 12, MD5=md5('Q'))])
     return n1, n2
@@ -69,8 +75,10 @@ def s_water(v):
     fs = c.fs = ModelFS()
     k1, k2 = v.choice('fmt1', 3), v.choice('fmt2', 3)
     c.fmt = (SUFS[k1], SUFS[k2])
+    c.prof = v.choice('prof', 3)
     c.names = build_tree(fs, c.fmt[0], c.fmt[1], (2, 'F'), (2, 'G'),
-                         stale1=v.bool('stale1'), stale2=v.bool('stale2'))
+                         stale1=v.bool('stale1'), stale2=v.bool('stale2'),
+                         meta=c.prof != 0)
     c.u1, c.u2, c.ut = v.size('u1'), v.size('u2'), v.size('ut')
     fs.size_of = {posixpath.join(ROOT, 's1/Manifest'): c.u1,
                   posixpath.join(ROOT, 's2/Manifest'): c.u2,
@@ -85,7 +93,12 @@ def s_water(v):
 
 
 def run_water(c):
+    # profiles that expect a Manifest in s1/ and s2/ (they hold a metadata.xml): the
+    # Manifest that is there, whatever its format, is that Manifest
+    prof = (DefaultProfile, EbuildRepositoryProfile,
+            BackwardsCompatEbuildRepositoryProfile)[c.prof]()
     out = tree.run_update(c.fs, 'Manifest', '', ('MD5',), False, c.force,
+                          loader_kw={'profile': prof},
                           save_kw={'compress_watermark': c.watermark,
                                    'compress_format': c.cfmt})
     c.fresh = tree.run_verify(c.fs, 'Manifest', '') if out == 'saved' else None
@@ -317,8 +330,15 @@ def conditions(tier):
             bounds='two sub-Manifests, one symbolic file each, verified path "", s1, s2'))
     wparts = [('fmt1', range(3) if full else (0, 1)), ('fmt2', range(3) if full else (0, 2)),
               ('force', (False, True)), ('cfmt', range(3) if full else (0, 2))]
-    for fx in partitions(wparts):
-        nm = f'water_{fx["fmt1"]}{fx["fmt2"]}_f{int(fx["force"])}_c{fx["cfmt"]}'
+    wfx = [dict(fx, prof=0) for fx in partitions(wparts)]
+    if full:
+        wfx += [dict(fx, prof=p) for fx in partitions(wparts) for p in (1, 2)]
+    else:
+        wfx += [dict(fmt1=a, fmt2=b, force=False, cfmt=0, prof=p)
+                for a in (0, 1) for b in (0, 2) for p in (1, 2)]
+    for fx in wfx:
+        nm = f'water_{fx["fmt1"]}{fx["fmt2"]}_f{int(fx["force"])}_c{fx["cfmt"]}' \
+             + (f'_p{fx["prof"]}' if fx['prof'] else '')
         cs.append(make_cond(
             nm, s_water, run_water, judge_water, fx, timeout=400, group='M-water', real=False,
             twin=True,
@@ -328,7 +348,8 @@ def conditions(tier):
                   'watermark, format kept when already compressed, top-level untouched, '
                   'one file per Manifest, parents reference it, tree verifies',
             bounds='two sub-Manifests currently plain/.gz/.bz2; sizes and watermark any '
-                   'int >= 0'))
+                   'int >= 0; default profile, or ebuild / old-ebuild profile on '
+                   'directories that hold a metadata.xml'))
     for prof in range(3):
         for rp in range(len(RELPATHS)):
             cs.append(Cond(f'k_policy_p{prof}_r{rp}',
